@@ -73,9 +73,9 @@ def classify(event, args):
     if event == "subprocess.Popen":
         argv = [str(a) for a in (args[1] or [])]
         if any(a == "-c" for a in argv) and any(a.endswith(".c") for a in argv):
-            return "popen_cc", " ".join(os.path.basename(a) for a in argv[-3:])
+            return "popen_cc", " ".join(os.path.basename(a) for a in argv if a.endswith((".c", ".o")))
         if any(a == "-shared" for a in argv):
-            return "popen_link", " ".join(os.path.basename(a) for a in argv[-2:])
+            return "popen_link", " ".join(os.path.basename(a) for a in argv if a.endswith((".o", ".so")))
         return None
     if event == "import":
         fn = args[1]
@@ -130,6 +130,23 @@ def hook(event, args):
                 os.kill(PID, signal.SIGKILL)
 
         threading.Thread(target=killer, daemon=True).start()
+    intr = SPEC.get("interrupt") or {}
+    if intr and not STATE.get("interrupted"):
+        if intr.get("before") == key:
+            # Ctrl-C at this protocol point: an exception raised by an audit hook propagates into the audited call
+            STATE["interrupted"] = True
+            log("inject", what="KeyboardInterrupt before event", key=key, idx=idx)
+            raise KeyboardInterrupt(f"injected before {key}")
+        if intr.get("after_popen") and key == {"cc": "popen_cc", "link": "popen_link"}[intr["after_popen"]]:
+            STATE["interrupted"] = True
+            delta_i = float(intr.get("delta", 0.02))
+
+            def interrupter():
+                time.sleep(delta_i)
+                log("inject", what=f"SIGINT {delta_i}s after {key}")
+                os.kill(PID, signal.SIGINT)
+
+            threading.Thread(target=interrupter, daemon=True).start()
     d = (SPEC.get("delay_plan") or {}).get(key)
     if d:
         log("inject", what="delay", key=key, seconds=d)
